@@ -1132,6 +1132,9 @@ func splitTop(s string) []string {
 }
 
 // readContractFile extracts the //@ lines of a Go contract file, or all lines of a .spec file.
+// dirAliases: directory of a contract file -> alias declared there with `pkgalias`
+var dirAliases = map[string]string{}
+
 func readContractFile(path string) (pkgName string, lines []string, err error) {
 	data, err := os.ReadFile(path)
 	if err != nil {
@@ -1145,7 +1148,14 @@ func readContractFile(path string) (pkgName string, lines []string, err error) {
 				pkgName = strings.TrimSpace(strings.TrimPrefix(t, "package "))
 			}
 			if strings.HasPrefix(t, "//@") {
-				lines = append(lines, strings.TrimPrefix(t, "//@"))
+				l := strings.TrimPrefix(t, "//@")
+				if f := strings.Fields(l); len(f) == 2 && f[0] == "pkgalias" {
+					// the package is known to the verifier under this name (see pkgAliases)
+					pkgName = f[1]
+					dirAliases[filepath.Dir(path)] = f[1]
+					continue
+				}
+				lines = append(lines, l)
 			}
 		} else {
 			if strings.HasPrefix(t, "package ") {
